@@ -42,7 +42,7 @@ TIERS = {
     "quick": {"runs": 2200, "chunk": 70},
     "thorough": {"runs": 40000, "chunk": 200},
 }
-REACH_PROBES = ["successor_probe", "dst_day_crossed", "early_wakeup_rewait", "two_specs_one_decorator", "startup_fired", "shutdown_fired",
+REACH_PROBES = ["successor_probe", "successor_probe_yearly", "successor_probe_at_dst_change", "dst_day_crossed", "early_wakeup_rewait", "two_specs_one_decorator", "startup_fired", "shutdown_fired",
                 "reload_mid_run", "stall_past_instant", "cron_step_or_range", "period_with_end", "sub_second_start",
                 "sunrise_or_sunset", "weekly_or_yearly"]
 SHRINK_LISTS = [["ops"], ["spec", "funcs"], ["spec", "funcs", "*", "specs"]]
@@ -310,6 +310,16 @@ async def successor_probes(w: World, scn: dict) -> list:
             nows += [inst - dt.timedelta(microseconds=1), inst, inst + dt.timedelta(microseconds=1)]
         for _ in range(3):
             nows.append(startup + dt.timedelta(seconds=rng.uniform(1, (denoted[-1] - startup).total_seconds() - 1)))
+        # around a daylight-saving change: 'now' shortly before it, candidates of different specifications after it
+        # (the minimum over the specifications must be taken on the local labels)
+        zone_ = C.Zone(w.cfg["tz"])
+        hour = startup.replace(minute=0, second=0, microsecond=0)
+        while hour < horizon:
+            if zone_.offset_changes_between(hour, hour + dt.timedelta(hours=1)):
+                for mins in (-180, -120, -90, -60, -30, -1, 61, 90):
+                    nows.append(hour + dt.timedelta(minutes=mins, seconds=7))
+                w.probe("successor_probe_at_dst_change")
+            hour += dt.timedelta(hours=1)
         srcs = [C.spec_src(sp) for sp in specs]
         for now in nows:
             if now <= startup or now >= denoted[-1]:
@@ -320,6 +330,34 @@ async def successor_probes(w: World, scn: dict) -> list:
             if got is None or abs((got - want).total_seconds()) > 1e-5:
                 out.append({"specs": srcs, "now": str(now), "startup": str(startup), "got": str(got), "want": str(want),
                             "on_instant": now in denoted})
+    # ---- once(MM/DD hh:mm:ss) without a year = once per year: the next occurrence can be up to a year (and a leap
+    # day) away, far outside any simulated window, so the successor function is probed directly at 'now' values
+    # around the year's end, a leap day and the denoted date itself
+    for _ in range(2):
+        month, day = rng.choice([(1, 1), (1, 15), (2, 28), (3, 1), (7, 4), (12, 31), (startup.month, startup.day)])
+        if (month, day) == (2, 29):
+            day = 28  # once(2/29) in a year without a leap day is outside what the documentation describes
+        hms = (rng.randrange(24), rng.randrange(60), rng.choice([0, 0, 30]))
+        at = {"date": {"k": "md", "m": month, "d": day}, "time": {"k": "hms", "h": hms[0], "m": hms[1], "s": hms[2]}, "off": 0}
+        src = C.spec_src({"type": "once", "at": at})
+        year = rng.choice([2023, 2024, 2024, 2027, 2028])
+        nows = [dt.datetime(year, 2, 28, 23, 59, 59), dt.datetime(year, 3, 1, 0, 0, 0), dt.datetime(year, 12, 31, 23, 59, 59),
+                dt.datetime(year, 1, 1, 0, 0, 0), dt.datetime(year, month, day, *hms),
+                dt.datetime(year, month, day, *hms) - dt.timedelta(microseconds=1),
+                dt.datetime(year, 1, 1) + dt.timedelta(seconds=rng.uniform(0, 365 * 86400))]
+        if year % 4 == 0:
+            nows.append(dt.datetime(year, 2, 29, 9, 41, 0))
+        for now in nows:
+            st = now - dt.timedelta(days=1)
+            denoted = C.once_instants(at, st, now, now + dt.timedelta(days=800), sun)
+            if not denoted:
+                continue
+            want = denoted[0]
+            got, _adj = await TrigTime.timer_trigger_next([src], now, st)
+            w.probe("successor_probe_yearly")
+            if got is None or abs((got - want).total_seconds()) > 1e-5:
+                out.append({"specs": [src], "now": str(now), "startup": str(st), "got": str(got), "want": str(want),
+                            "on_instant": False, "yearly": True})
     return out
 
 
